@@ -4,6 +4,7 @@
 (* generated).  The file is a concatenation of runs:                                              *)
 (*   Reset [cfg, objs]            configuration + password facts, the plaintext document as an     *)
 (*                                abstract tree (strings / streams with their context)             *)
+(*   (a Call "Rekey" also carries cfg: the configuration from then on)                                *)
 (*   Call  [call, rel, pos, res, tenc, nobj, same, items]  one public call (or an Edit of the object  *)
 (*                                at position pos by the caller) and what was observed                *)
 (* The validator carries (i) the judge state of the declarative layer and judges every call with  *)
@@ -50,21 +51,23 @@ DoReset(r) ==
     /\ PrintT(<<"VERDICT", ToJson([i |-> l, ok |-> TRUE, tags |-> {"ok-reset"}, drift |-> ~synced'])>>)
 
 DoCall(r) ==
-    LET c  == [call |-> r.call, rel |-> r.rel, pos |-> r.pos]
+    LET cf == IF r.call = "Rekey" THEN r.cfg ELSE cfg          \* Rekey: MakeState with another configuration
+        c  == [call |-> r.call, rel |-> r.rel, pos |-> r.pos]
         ev == [call |-> r.call, rel |-> r.rel, res |-> r.res, tenc |-> r.tenc, nobj |-> r.nobj, items |-> r.items, same |-> r.same]
-        v  == Judge(cfg, j, ev)
+        v  == Judge(cf, j, ev)
         \* a password relation the harness could not decide (convention for characters without a PDFDocEncoding code):
         \* the impl-shaped layer is not stepped (and stays unsynchronised until the next Reset); this is not drift
-        uns == r.rel.u = "unsure" \/ r.rel.o = "unsure" \/ cfg.e.u = "unsure" \/ cfg.e.o = "unsure"
-        \* an Edit the driver issued although the document is encrypted is refused by the harness: nothing happens
-        refused == synced /\ r.call = "Edit" /\ ~Callable(s, c) /\ r.res = "Err" /\ r.same
+        uns == r.rel.u = "unsure" \/ r.rel.o = "unsure" \/ cf.e.u = "unsure" \/ cf.e.o = "unsure"
+        \* an Edit / Rekey the driver issued although the document is encrypted, an Encrypt without a state, a Load without a
+        \* file are refused by the harness: nothing happens
+        refused == synced /\ r.call \in {"Edit", "Rekey", "Encrypt", "Load"} /\ ~Callable(s, c) /\ r.res = "Err" /\ r.same
         can == synced /\ Callable(s, c) /\ ~uns
-        t  == IF refused THEN s ELSE Step(cfg, s, c)
+        t  == IF refused THEN s ELSE Step(cf, s, c)
         agree == refused \/ (can /\ Agree(Observe(s, t, c), ev))
     IN /\ j' = v.j
        /\ s' = IF agree THEN t ELSE s
        /\ synced' = agree
-       /\ UNCHANGED cfg
+       /\ cfg' = cf
        /\ PrintT(<<"VERDICT", ToJson([i |-> l, ok |-> v.ok, tags |-> v.tags, drift |-> (synced /\ ~agree /\ ~uns)])>>)
 
 Next ==
